@@ -203,8 +203,18 @@ func appendEvents(path string, events []Event) error {
 		return err
 	}
 	defer file.Close()
-	if err := repairTornTail(file); err != nil {
+	replaced, err := repairTornTail(file, path)
+	if err != nil {
 		return err
+	}
+	if replaced {
+		// The log is a new file now; append to that one.
+		file.Close()
+		file, err = os.OpenFile(path, os.O_APPEND|os.O_CREATE|os.O_RDWR, 0644)
+		if err != nil {
+			return err
+		}
+		defer file.Close()
 	}
 	// Encode every line first and hand them to the kernel in one write: a process killed
 	// between two writes would otherwise leave a command half recorded (e.g. claimed but todo).
@@ -234,14 +244,18 @@ func appendEvents(path string, events []Event) error {
 // A final line without a newline is what a killed writer leaves behind. readEvents ignores
 // it when it does not parse, but gluing the next event onto it would make that line
 // invalid for good and every later command would fail. Called with the lock held.
-func repairTornTail(file *os.File) error {
+//
+// Readers take no lock, so bytes of the file they may be in the middle of reading must never
+// change: the fragment is not cut off in place. The log is replaced (temp file + rename) by a
+// copy of its complete lines, and replaced reports that path now names a new file.
+func repairTornTail(file *os.File, path string) (replaced bool, err error) {
 	info, err := file.Stat()
 	if err != nil {
-		return err
+		return false, err
 	}
 	size := info.Size()
 	if size == 0 {
-		return nil
+		return false, nil
 	}
 	// Collect the bytes after the last newline, reading backwards in chunks.
 	const chunk = 64 * 1024
@@ -254,10 +268,10 @@ func repairTornTail(file *os.File) error {
 		}
 		buf := make([]byte, end-start)
 		if _, err := file.ReadAt(buf, start); err != nil {
-			return err
+			return false, err
 		}
 		if end == size && buf[len(buf)-1] == '\n' {
-			return nil
+			return false, nil
 		}
 		if i := bytes.LastIndexByte(buf, '\n'); i >= 0 {
 			lastNL = start + int64(i)
@@ -271,10 +285,29 @@ func repairTornTail(file *os.File) error {
 	if json.Unmarshal(bytes.TrimSpace(tail), &event) == nil {
 		// A complete event that only lacks its newline: keep it.
 		_, err := file.Write([]byte{'\n'})
-		return err
+		return false, err
 	}
 	// A fragment of an interrupted write: it was never acknowledged; drop it.
-	return file.Truncate(lastNL + 1)
+	tmpPath := path + ".tmp"
+	tmp, err := os.OpenFile(tmpPath, os.O_CREATE|os.O_WRONLY|os.O_TRUNC, 0644)
+	if err != nil {
+		return false, err
+	}
+	if _, err := io.Copy(tmp, io.NewSectionReader(file, 0, lastNL+1)); err != nil {
+		tmp.Close()
+		return false, err
+	}
+	if err := tmp.Sync(); err != nil {
+		tmp.Close()
+		return false, err
+	}
+	if err := tmp.Close(); err != nil {
+		return false, err
+	}
+	if err := os.Rename(tmpPath, path); err != nil {
+		return false, err
+	}
+	return true, syncDir(filepath.Dir(path))
 }
 
 func writeEventsFile(path string, events []Event) error {
